@@ -94,3 +94,34 @@ Theorem C02_source_lru_dirname : forall l, GenHelpers2.py_lru_dirname l = Helper
 Proof. exact GenHelpers2Facts.py_lru_dirname_eq. Qed.
 Print Assumptions C02_source_lru_iter.
 Print Assumptions C02_source_lru_dirname.
+
+(* ---- reading a stored node as the SOURCE does -----------------------------------------
+   LRUTrieNode.read translated from the source (GenNode.v) returns, on the stored blocks
+   of any store made of encodable blocks, the main block and the whole stem that the
+   block-level reader of Store.v returns (which the theorems above tie to the tree), for
+   every number of tail blocks; and what LRUTrieNode.write has appended for a new node is
+   read back with the same stem. *)
+From Traph Require GenStorage GenNode GenNodeFacts Store TraceDefs.
+Import GenStorage GenNode GenNodeFacts.
+Theorem C02_source_node_read : forall nd0 sg hdr f i b,
+  pm_block_size sg = py_node_block_size ->
+  pm_array sg = hdr ++ flat_map encode_tblock (TraceDefs.ft f) -> length hdr = 128%nat ->
+  Forall blk_encodable (TraceDefs.ft f) -> nth_error (TraceDefs.ft f) i = Some b ->
+  let a := blk_off i in let r := py_node_read nd0 sg a in
+  nd_exists (fst r) = true /\ nd_block (fst r) = Some a /\ nd_data (fst r) = tblock_vals b /\
+  nd_tail (fst r) = (if blk_has_tail b then tail_of (skipn (S i) (TraceDefs.ft f)) else []) /\
+  Store.b_read f a = Some (b, py_node_stem (fst r)) /\
+  pm_array (snd r) = pm_array sg /\ pm_block_size (snd r) = pm_block_size sg.
+Proof. exact py_node_read_spec. Qed.
+Theorem C02_source_write_read_roundtrip : forall nd0 sg hdr f st,
+  pm_block_size sg = py_node_block_size -> pm_array sg = hdr ++ flat_map encode_tblock (TraceDefs.ft f) ->
+  length hdr = 128%nat -> Forall blk_encodable (TraceDefs.ft f) ->
+  let nd := py_node_set_default_data py_node_new (Some st) in
+  let sg' := snd (py_node_write nd sg) in
+  let a := N.of_nat (length (pm_array sg)) in
+  let r := py_node_read nd0 sg' a in
+  py_node_stem (fst r) = st /\ nd_exists (fst r) = true /\ nd_block (fst r) = Some a /\
+  nd_data (fst r) = nd_data nd /\ nd_tail (fst r) = nd_tail nd.
+Proof. exact py_node_write_read_roundtrip. Qed.
+Print Assumptions C02_source_node_read.
+Print Assumptions C02_source_write_read_roundtrip.
